@@ -13,39 +13,52 @@ IMPL_SPEC = ("sim", True, ("-test.run", "TestSim", "-test.timeout", "0"), "SIM "
 PFX = ["10.1.0.0/24", "10.2.0.0/24", "10.3.0.0/24"]
 
 
+PFX6 = ["2001:db8:1::/48", "2001:db8:2::/48"]
+
+
 class Ref:
+    """RFC 4724 / 8538 receiving speaker, from the RFC text and the property; cap = (time, nbit, fam4, fam6) or None"""
+
     def __init__(self, cfg):
         self.cfg = cfg
         self.est, self.cap, self.restarting, self.timer, self.routes = False, None, False, None, {}
+        self.eor = set()
+
+    def gr_fams(self, cap):
+        if not self.cfg["gr"] or cap is None:
+            return set()
+        return {f for f, on in ((4, cap[2]), (6, cap[3])) if on}
 
     def step(self, e):
         t = e[0]
         if t == "up":
             if not self.est:
-                self.est, self.cap, self.timer = True, e[1], None
-                if self.restarting and not (self.cfg["gr"] and self.cap is not None):
-                    # RFC 4724 4.2: back without the capability -> the retained routes are removed immediately
+                self.est, self.cap, self.timer, self.eor = True, e[1], None, set()
+                if self.restarting and not self.gr_fams(self.cap):
                     self.restarting = False
                     self.routes = {p: s for p, s in self.routes.items() if not s}
         elif t == "ann":
             if self.est:
-                self.routes[e[1]] = False
+                self.routes[(e[1], e[2])] = False
         elif t == "wd":
             if self.est:
-                self.routes.pop(e[1], None)
+                self.routes.pop((e[1], e[2]), None)
         elif t == "eor":
-            if self.est and self.restarting:
-                self.restarting = False
-                self.routes = {p: s for p, s in self.routes.items() if not s}
+            if self.est:
+                self.eor.add(e[1])
+                if self.restarting and self.gr_fams(self.cap) <= self.eor:
+                    self.restarting = False
+                    self.routes = {p: s for p, s in self.routes.items() if not s}
         elif t == "loss":
             if self.est:
                 self.est = False
+                fams = self.gr_fams(self.cap)
                 gr = self.cfg["gr"] and self.cap is not None
                 kind = e[1]
                 q = gr and (kind == "transport" or (kind == "notif" and self.cfg["notif"] and self.cap[1] and (e[2], e[3]) != (6, 9)))
                 if q:
                     self.restarting, self.timer = True, self.cap[0]
-                    self.routes = {p: True for p in self.routes}
+                    self.routes = {p: True for p in self.routes if p[0] in fams}
                 else:
                     self.restarting, self.timer, self.routes = False, None, {}
         elif t == "tick":
@@ -78,19 +91,28 @@ def gen_case(rng):
             if r < 0.45:
                 while st["now"] < st["idle_until"]:
                     add(("tick", st["idle_until"] - st["now"]))
-                cap = rng.choice([None, (rng.choice([3, 10, 30]), False), (rng.choice([3, 10, 30]), True), (10, rng.random() < 0.5)])
+                tm, nb = rng.choice([3, 10, 30]), rng.random() < 0.5
+                cap = rng.choice([None, (tm, nb, True, True), (tm, nb, True, True), (tm, nb, True, False), (tm, nb, False, True), (tm, nb, False, False)])
+                if ref.restarting and ref.cap is not None and ref.cap[2] and ref.cap[3] and rng.random() < 0.5:
+                    cap = rng.choice([(tm, nb, True, False), (tm, nb, False, True)])    # comes back listing fewer families
                 add(("up", cap))
+                if ref.restarting and rng.random() < 0.6:
+                    for f in rng.sample([4, 6], 2):
+                        if rng.random() < 0.8:
+                            add(("eor", f))
+                    add(("obs",))
             elif r < 0.85:
                 add(("tick", rng.choice([1, 2, 3, 4, 7, 9, 10, 11, 29, 30, 31])))
             else:
                 add(("obs",))
             continue
+        fam = rng.choice([4, 4, 6])
         if r < 0.35:
-            add(("ann", rng.randrange(3)))
+            add(("ann", fam, rng.randrange(3 if fam == 4 else 2)))
         elif r < 0.45:
-            add(("wd", rng.randrange(3)))
+            add(("wd", fam, rng.randrange(3 if fam == 4 else 2)))
         elif r < 0.55:
-            add(("eor",))
+            add(("eor", fam))
         elif r < 0.75:
             k = rng.random()
             if k < 0.5:
@@ -113,13 +135,13 @@ def sim_line(c):
         t = e[0]
         if t == "up":
             cap = e[1]
-            steps.append("(up a now%s)" % ("" if cap is None else " gr=%d%s" % (cap[0], "n" if cap[1] else "")))
+            steps.append("(up a now v6%s)" % ("" if cap is None else " gr=%d%s grfam=%s" % (cap[0], "n" if cap[1] else "", ("4" if cap[2] else "") + ("6" if cap[3] else "") or "0")))
         elif t == "ann":
-            steps.append("(upd a (a %s 0 (65001) - - 0 ()))" % PFX[e[1]])
+            steps.append("(upd a (a %s 0 (65001) - - 0 ()))" % PFX[e[2]] if e[1] == 4 else "(upd6 a (a %s))" % PFX6[e[2]])
         elif t == "wd":
-            steps.append("(upd a (w %s 0))" % PFX[e[1]])
+            steps.append("(upd a (w %s 0))" % PFX[e[2]] if e[1] == 4 else "(upd6 a (w %s))" % PFX6[e[2]])
         elif t == "eor":
-            steps.append("(eor a)")
+            steps.append("(eor a)" if e[1] == 4 else "(eor6 a)")
         elif t == "loss":
             if e[1] == "transport":
                 steps.append("(close a)")
@@ -133,7 +155,7 @@ def sim_line(c):
             steps.append("(obs)")
     k = c["cfg"]
     opts = (" gr=120" if k["gr"] else "") + (" grnotif" if k["notif"] and k["gr"] else "")
-    return "(sim (global 65000 1.1.1.1 sync) (peers (a 10.0.0.1 65001%s) (b 10.0.0.2 65002)) (steps (up b) %s))" % (opts, " ".join(steps))
+    return "(sim (global 65000 1.1.1.1 sync) (peers (a 10.0.0.1 65001 v6%s) (b 10.0.0.2 65002 v6)) (steps (up b v6) %s))" % (opts, " ".join(steps))
 
 
 def model_line(c):
@@ -141,11 +163,11 @@ def model_line(c):
     for e in c["events"]:
         t = e[0]
         if t == "up":
-            steps.append("(up)" if e[1] is None else "(up %d %d)" % (e[1][0], 1 if e[1][1] else 0))
+            steps.append("(up)" if e[1] is None else "(up %d %d %d %d)" % (e[1][0], 1 if e[1][1] else 0, 1 if e[1][2] else 0, 1 if e[1][3] else 0))
         elif t in ("ann", "wd"):
-            steps.append("(%s %d)" % (t, e[1]))
+            steps.append("(%s %d %d)" % (t, e[1], e[2]))
         elif t == "eor":
-            steps.append("(eor)")
+            steps.append("(eor %d)" % e[1])
         elif t == "loss":
             steps.append("(loss notif %d %d)" % (e[2], e[3]) if e[1] == "notif" else "(loss %s)" % e[1])
         elif t == "tick":
@@ -166,7 +188,11 @@ def parse_impl(out):
         for pf, paths in o["rib"].items():
             for p in paths:
                 if p["src"] == "10.0.0.1":
-                    routes[PFX.index(pf)] = p["stale"]
+                    routes[(4, PFX.index(pf))] = p["stale"]
+        for pf, paths in o.get("rib6", {}).items():
+            for src, stale in paths:
+                if src == "10.0.0.1":
+                    routes[(6, PFX6.index(pf))] = stale
         res.append({"est": o["peers"]["a"]["state"] == "established", "routes": routes,
                     "b_view": sorted(k.split("#")[0] for k in o["peers"]["b"].get("view", {}))})
     return res
@@ -176,7 +202,7 @@ def norm_impl(c, out):
     r = parse_impl(out)
     if r is None:
         return "impl-error " + out[:200]
-    return json.dumps([{"est": o["est"], "routes": sorted([k, v] for k, v in o["routes"].items())} for o in r])
+    return json.dumps([{"est": o["est"], "routes": sorted([k[0], k[1], v] for k, v in o["routes"].items())} for o in r])
 
 
 def norm_model(c, out):
@@ -184,7 +210,7 @@ def norm_model(c, out):
         return "model-error " + out[:200]
     res = []
     for it in simlib.parse_sx(out[2:]):
-        res.append({"est": it[1] == "1", "routes": sorted([int(x[0]), x[1] == "1"] for x in it[3])})
+        res.append({"est": it[1] == "1", "routes": sorted([int(x[0]), int(x[1]), x[2] == "1"] for x in it[3])})
     return json.dumps(res)
 
 
@@ -210,9 +236,10 @@ def oracle(c, out):
                 return ("route-removed-too-early", "t=%d Loc-RIB lacks %s (stale flags expected %s)" % (now, missing, ref.routes))
             for k, st in ref.routes.items():
                 if o["routes"][k] != st:
-                    return ("stale-flag", "t=%d route %s stale=%s, expected %s" % (now, PFX[k], o["routes"][k], st))
-            if o["b_view"] != sorted(PFX[k] for k in ref.routes):
-                return ("third-peer-view", "t=%d third peer holds %s, present routes are %s" % (now, o["b_view"], sorted(PFX[k] for k in ref.routes)))
+                    return ("stale-flag", "t=%d route %s stale=%s, expected %s" % (now, k, o["routes"][k], st))
+            want4 = sorted(PFX[k[1]] for k in ref.routes if k[0] == 4)
+            if [x for x in o["b_view"] if ":" not in x] != want4:
+                return ("third-peer-view", "t=%d third peer holds %s, present IPv4 routes are %s" % (now, o["b_view"], want4))
         else:
             if e[0] == "tick":
                 now += e[1]
@@ -251,7 +278,7 @@ def run(ctx):
                 "non-trivial = at least one loss; distinct by line",
         "trusted_base": core.TRUSTED_COMMON + ["go/overlay/internal/verif/sim (synctest virtual clock)", "Python reference of RFC 4724/8538 in checks/c12.py"],
     })
-    return ctx.finish(pc, ["one GR family (IPv4 unicast): the per-family split is not exercised", "long-lived GR (LLGR_STALE, NO_LLGR, per-family long-lived timer, export restriction) is NOT covered",
+    return ctx.finish(pc, ["two families (IPv4 and IPv6 unicast) with every combination in the GR capability", "long-lived GR (LLGR_STALE, NO_LLGR, per-family long-lived timer, export restriction) is NOT covered",
                            "the restarting-speaker side (deferral of advertisements until End-of-RIB) is NOT covered", "hold-timer expiry as a loss kind is in the model but not generated"])
 
 
